@@ -55,7 +55,7 @@ func main() {
 			}
 		}
 		if *budget == 0 {
-			*budget = 40 * time.Second
+			*budget = 55 * time.Second
 			if *tier == "thorough" {
 				*budget = 25 * time.Minute
 			}
